@@ -253,6 +253,7 @@ def run(ctx, chk, tier):
     chk.assumptions = ["dtype effects (integer truncation when .astype(float) is dropped) are outside the model"]
     positive_control(chk)
     n = purity(ctx, chk)
+    global_state_rule(ctx, chk)
     if n < 150:
         chk.unknown("R10.1", "only %d callables analysed (floor 150)" % n)
     shapes_and_aliases(ctx, chk)
@@ -271,6 +272,79 @@ def memo_rule(ctx, chk, outs, q, label, rule="R10.1"):
         n += sum(1 for e in o.events if e["kind"] == "dict_store" and not e["in_init"])
     if not seen:
         chk.hold(rule, label + ":memo", "%d memo store(s) on %d path(s): each determined by its key" % (n, len(outs)), nontrivial=n > 0)
+
+
+MUTABLE_CTORS = {"dict", "list", "set", "defaultdict", "OrderedDict", "Counter", "deque", "WeakValueDictionary", "WeakKeyDictionary", "bytearray"}
+MUTATORS = {"append", "extend", "insert", "add", "update", "setdefault", "pop", "popitem", "clear", "remove", "discard", "appendleft", "sort", "reverse"}
+
+
+def global_state(db, modules=None):
+    """Module-level mutable containers that function bodies write to, and functools caches: [(module, name, writer qualname, line, how, key source)]."""
+    out = []
+    for mq, mi in db.modules.items():
+        if modules is not None and not any(mq.endswith(m) for m in modules):
+            continue
+        tree = mi.tree if hasattr(mi, "tree") else None
+        if tree is None:
+            continue
+        cands = {}
+        for st in tree.body:
+            tg, val = None, None
+            if isinstance(st, ast.Assign) and len(st.targets) == 1 and isinstance(st.targets[0], ast.Name):
+                tg, val = st.targets[0].id, st.value
+            elif isinstance(st, ast.AnnAssign) and isinstance(st.target, ast.Name) and st.value is not None:
+                tg, val = st.target.id, st.value
+            if tg is None:
+                continue
+            mutable = isinstance(val, (ast.Dict, ast.List, ast.Set, ast.DictComp, ast.ListComp, ast.SetComp)) or \
+                (isinstance(val, ast.Call) and ast.unparse(val.func).split(".")[-1] in MUTABLE_CTORS)
+            if mutable:
+                cands[tg] = st.lineno
+        for fn in [n for n in ast.walk(tree) if isinstance(n, (ast.FunctionDef, ast.AsyncFunctionDef))]:
+            for d in fn.decorator_list:
+                src = ast.unparse(d)
+                if src.split("(")[0].split(".")[-1] in ("lru_cache", "cache", "cached_property"):
+                    out.append((mq, fn.name, mq + "." + fn.name, fn.lineno, "@" + src, "arguments (identity / hash of objects)"))
+            if not cands:
+                continue
+            for n in ast.walk(fn):
+                name, how, keysrc = None, None, ""
+                if isinstance(n, (ast.Assign, ast.AugAssign, ast.Delete)):
+                    tgs = n.targets if isinstance(n, (ast.Assign, ast.Delete)) else [n.target]
+                    for t in tgs:
+                        if isinstance(t, ast.Subscript) and isinstance(t.value, ast.Name) and t.value.id in cands:
+                            name, how, keysrc = t.value.id, "subscript store", ast.unparse(t.slice)
+                elif isinstance(n, ast.Call) and isinstance(n.func, ast.Attribute) and isinstance(n.func.value, ast.Name) and n.func.value.id in cands \
+                        and n.func.attr in MUTATORS:
+                    name, how = n.func.value.id, "." + n.func.attr + "()"
+                    keysrc = ast.unparse(n.args[0]) if n.args else ""
+                elif isinstance(n, ast.Global) and any(x in cands for x in n.names):
+                    name, how = [x for x in n.names if x in cands][0], "global re-binding"
+                if name:
+                    # resolve a key variable to its defining expression inside the function, if it is a plain local
+                    ksrc = keysrc
+                    for a in ast.walk(fn):
+                        if isinstance(a, ast.Assign) and len(a.targets) == 1 and isinstance(a.targets[0], ast.Name) and a.targets[0].id == keysrc:
+                            ksrc = ast.unparse(a.value)
+                    out.append((mq, name, mq + "." + fn.name, n.lineno, how, ksrc))
+    return out
+
+
+def global_state_rule(ctx, chk, rule="R10.1", modules=None, strict=True):
+    """No state outlives a call: module-level containers written by functions (and functools caches) make results depend on the call history.
+    strict: any such state is a violation; otherwise identity-keyed memos (id()/hash()/repr of an argument in the key) are violations and the rest is INCONCLUSIVE."""
+    finds = global_state(ctx.db, modules)
+    for mq, name, writer, line, how, ksrc in finds:
+        ident = any(tok in ksrc for tok in ("id(", "hash(", "repr(", "identity"))
+        msg = "module-level %s written by %s (%s%s)" % (name, writer.split(".")[-1], how, ", key " + ksrc[:80] if ksrc else "")
+        if strict or ident:
+            chk.violation(rule, writer, "global-state:%s:%s" % (name, "identity-key" if ident else "state"),
+                          msg + (" — the key identifies an object, not its content: an in-place edit or a recycled id returns the stale entry" if ident else ""),
+                          "no state outlives a call (results are functions of the arguments and the receiver)", "%s line %d" % (mq, line))
+        else:
+            chk.unknown(rule, msg + ": hidden cross-call state is not decided")
+    if not finds:
+        chk.hold(rule, "no-global-state" + ("" if modules is None else ":" + ",".join(modules)), "no module-level mutable container is written from a function body; no functools cache", nontrivial=False)
 
 
 def purity(ctx, chk, only=None, strict=None):
